@@ -158,16 +158,19 @@ PROPS = {
         "level_note": "Trusted: Lean kernel; SQLite and shims. Modelled, not verified: the AST visitor (name resolution, joins, set operations) is not modelled in Lean; for it the check is a differential test, not a theorem. The split theorem assumes names injective on one item (the 4-character base-37 names can collide: C16.code_collision).",
     },
     "C09": {
-        "lean_modules": ["QrlewModel.Props.C09"],
+        "lean_modules": ["QrlewModel.Props.C09", "QrlewModel.Props.C09Agg"],
         "streams": [
             {"name": "c09", "n_quick": 1500, "n_thorough": 60000, "compare": False, "min_per_proc": 50},
+            {"name": "dpagg", "n_quick": 2500, "n_thorough": 100000, "compare": True, "min_per_proc": 100},
         ],
         "rule": "c09: generated aggregation queries (count/sum/avg/variance/stddev, count distinct; users, orders via foreign key, join; WHERE; ungrouped or grouped by the public-valued key) x in-range databases (3-40 users, 0-4 orders each) x (ε, δ); "
-                "RANDOM() ≡ 0.25 (every Box–Muller draw is 0), multiplicity bound far above any unit's rows; original vs DP results compared group by group; non-trivial = the original result is non-empty",
+                "RANDOM() ≡ 0.25 (every Box–Muller draw is 0), multiplicity bound far above any unit's rows; original vs DP results compared group by group; non-trivial = the original result is non-empty. "
+                "dpagg (model ≡ implementation): tables t(pu, g public, x optional float/integer, one- or two-sided range) of 0-27 rows, 1-6 units, 1-3 groups, multiplicity 1/2/3/50: the real DP rewriting of count/sum/avg/variance/stddev GROUP BY g "
+                "executed on SQLite with RANDOM() ≡ 1 (ln 1 = 0: noise exactly 0) against Qrlew.DpAgg.release on Float with the clipping constants read off the relation (checked to be multiplicity, A·multiplicity, ≥ A²·multiplicity); clipping is active in about 60% of the cases",
         "trusted_base": COMMON_TRUST + ["SQLite 3.40 + harness shims as executor", "Mathlib reals"],
         "assumptions": ["NULL (SQL, empty input / single row for var) vs 0 (DP expression) is accepted within 1e-3", "variance/stddev: population or sample value accepted", "extra groups in the DP result must be empty public groups"],
         "technique": "Lean 4 proof over ℝ (no rescaling within the bound ⇒ clipped sums = sums; mean and variance recombination identities) + differential execution of original vs DP relation on SQLite with noise and clipping neutralised",
-        "level_text": "Theorems (Props/C09.lean): a unit within the clipping bound is not rescaled and the clipped sums of any database of such units are the plain sums; sum/greatest(1,count) is the mean of a non-empty group; E[x²] − E[x]² is the variance of the data (with a kernel-checked counterexample for the pre-repair formula E[x²] − E[x]). The real DP rewriting is executed on SQLite with noise neutralised and compared with the original query on generated databases.",
+        "level_text": "Theorems (Props/C09Agg.lean, whole pipeline): for any table with values in [-A, A] and at most m rows per privacy unit and clipping constants ≥ m, A·m, A²·m, the released table (model DpAgg.release, compared line by line with the real rewriting) holds the true count, sum, mean, variance and standard deviation of every group (release_exact, release_true_stats; unitVec_normSq_le: such a unit is never rescaled; count_clipped_counterexample: the multiplicity hypothesis cannot be dropped). Theorems (Props/C09.lean): a unit within the clipping bound is not rescaled and the clipped sums of any database of such units are the plain sums; sum/greatest(1,count) is the mean of a non-empty group; E[x²] − E[x]² is the variance of the data (with a kernel-checked counterexample for the pre-repair formula E[x²] − E[x]). The real DP rewriting is executed on SQLite with noise neutralised and compared with the original query on generated databases.",
         "level_note": "Trusted: Lean kernel, Mathlib; SQLite and shims. Modelled, not verified: DISTINCT splitting and re-join, public-key left join (execution oracle only).",
     },
     "C05": {
